@@ -67,4 +67,22 @@ enum JanetMemoryType {
  * and then call when janet_enablegc when it is initialized and reachable by the gc (on the JANET stack) */
 void *janet_gcalloc(enum JanetMemoryType type, size_t size);
 
+#ifdef JANET_VERIF
+/* Verification hooks (off unless built with -DJANET_VERIF). Per-thread
+ * GC schedule control and counters; see janet_verif_safepoint in gc.c. */
+typedef struct {
+    int mode; /* 0 = not yet read, 1 = default, 2 = never, 3 = always, 4 = random */
+    uint64_t rng;
+    uint32_t num, den;
+    uint64_t safepoints;
+    uint64_t forced;
+    uint64_t collections;
+    uint64_t freed;
+    uint64_t relocations;
+} JanetVerifGC;
+extern JANET_THREAD_LOCAL JanetVerifGC janet_verif_gc;
+int janet_verif_safepoint(void);
+void janet_verif_report(void);
+#endif
+
 #endif
